@@ -79,8 +79,16 @@ static void* core_new_block(size_t size, bool zero) {
 #if CORE_VIRTUAL
   {
     size_t d = (size_t)nd_u32() & 0xFFFFF0;          /* any 16-aligned position */
-    new_usable = nd_size();
-    ASSUME(new_usable >= size && new_usable % 8 == 0 && new_usable <= MI_SEGMENT_SIZE - 0x1000000);
+    if (size <= MI_MEDIUM_OBJ_SIZE_MAX) {
+      /* contract (C16.good_size, C16.page_start): served from its size class: usable = class size, address a multiple of the
+         class size's power-of-two part */
+      const size_t bs = mi_good_size(size);
+      new_usable = bs - MI_PADDING_SIZE;
+      ASSUME(d % (bs & (~bs + 1)) == 0);
+    } else {
+      new_usable = nd_size();
+      ASSUME(new_usable >= size && new_usable % 8 == 0 && new_usable <= MI_SEGMENT_SIZE - 0x1000000);
+    }
     new_start = (uint8_t*)&BIG + d;
   }
 #else
